@@ -1,4 +1,6 @@
 import BlobfinderModel.Proofs.Lattice
+import BlobfinderModel.Gen.Polar
+import Mathlib.Analysis.SpecialFunctions.Complex.Arg
 /-!
 # C17 — lattice coordinate algebra is consistent
 Vectors are `(y, x)` pairs of rationals; all statements hold for every zero point, all
@@ -132,6 +134,58 @@ theorem drop_zero_iff (zero a b : V2) (indices : List V2) (c : V2) :
     exact hne (Prod.ext hcon.1 hcon.2)
 
 theorem drop_zero_wiring : Gen.mc_drop_zero_expr = "np.any(indices != 0, axis=1)" := rfl
+
+/-! ### polar / cartesian conversion (`make_polar`, `make_cartesian`)
+
+The conversion functions are *generated* from the source over an abstract record of library
+functions; here they are instantiated with the real `cos`, `sin`, the two-argument arctangent
+(`arctan2 y x` = argument of `x + i y`) and the Euclidean norm. -/
+
+/-- the real library functions -/
+noncomputable def realTrig : Gen.Trig ℝ :=
+  { cos := Real.cos, sin := Real.sin,
+    arctan2 := fun y x => Complex.arg ⟨x, y⟩,
+    norm2 := fun y x => Real.sqrt (y ^ 2 + x ^ 2) }
+
+theorem norm_mk (y x : ℝ) : ‖(⟨x, y⟩ : ℂ)‖ = Real.sqrt (y ^ 2 + x ^ 2) := by
+  rw [Complex.norm_def, Complex.normSq_mk]
+  congr 1; ring
+
+/-- **cartesian → polar → cartesian is the identity, for every vector (including zero)** -/
+theorem cartesian_of_polar (y x : ℝ) :
+    Gen.cartesian_y realTrig (Gen.polar_r realTrig y x) (Gen.polar_phi realTrig y x) = y ∧
+    Gen.cartesian_x realTrig (Gen.polar_r realTrig y x) (Gen.polar_phi realTrig y x) = x := by
+  unfold Gen.cartesian_y Gen.cartesian_x Gen.polar_r Gen.polar_phi realTrig
+  simp only
+  rw [← norm_mk y x]
+  constructor
+  · rw [mul_comm]; exact Complex.norm_mul_sin_arg ⟨x, y⟩
+  · rw [mul_comm]; exact Complex.norm_mul_cos_arg ⟨x, y⟩
+
+/-- **polar → cartesian → polar is the identity for positive length and angle in (−π, π]** -/
+theorem polar_of_cartesian (r phi : ℝ) (hr : 0 < r) (hphi : phi ∈ Set.Ioc (-Real.pi) Real.pi) :
+    Gen.polar_r realTrig (Gen.cartesian_y realTrig r phi) (Gen.cartesian_x realTrig r phi) = r ∧
+    Gen.polar_phi realTrig (Gen.cartesian_y realTrig r phi) (Gen.cartesian_x realTrig r phi) = phi := by
+  unfold Gen.cartesian_y Gen.cartesian_x Gen.polar_r Gen.polar_phi realTrig
+  simp only
+  have hz : (⟨Real.cos phi * r, Real.sin phi * r⟩ : ℂ) = (r : ℂ) * (Complex.cos phi + Complex.sin phi * Complex.I) := by
+    apply Complex.ext
+    · simp [Complex.cos_ofReal_re, Complex.sin_ofReal_re, Complex.cos_ofReal_im, Complex.sin_ofReal_im]; ring
+    · simp [Complex.cos_ofReal_re, Complex.sin_ofReal_re, Complex.cos_ofReal_im, Complex.sin_ofReal_im]; ring
+  constructor
+  · rw [← norm_mk, hz, norm_mul, Complex.norm_real, Real.norm_eq_abs, abs_of_pos hr]
+    have : ‖Complex.cos phi + Complex.sin phi * Complex.I‖ = 1 := by
+      rw [← Complex.exp_mul_I]; exact Complex.norm_exp_ofReal_mul_I phi
+    rw [this, mul_one]
+  · rw [hz]; exact Complex.arg_mul_cos_add_sin_mul_I hr hphi
+
+/-- the order of the returned components is `(y, x)` resp. `(length, angle)`: the round trip of a
+concrete vector (non-vacuity; `arctan2 1 0 = π/2`) -/
+example : Gen.polar_phi realTrig 1 0 = Real.pi / 2 := by
+  unfold Gen.polar_phi realTrig
+  simp only
+  have : (⟨0, 1⟩ : ℂ) = Complex.I := by apply Complex.ext <;> simp
+  rw [this, Complex.arg_I]
 
 /-- non-vacuity: a skewed lattice -/
 example : getIndices (1, 2) (3, 1) (-1, 4) (calcCoord (1, 2) (3, 1) (-1, 4) (2, -3)) = some (2, -3) := by
